@@ -147,21 +147,30 @@ def gen_expr_wide(rng, depth=0):
         return gen_expr(rng, depth)
     if r < 0.5:
         return Lower(rng.choice(['name', 'title'])) if rng.random() < 0.6 else Upper(F('name'))
-    lhs = gen_expr(rng, depth + 1)
-    k = rng.choice(['/', '%', '**', 'bitand', 'bitor', 'bitxor', 'lshift'])
+    # operands may themselves be wide expressions: same-operator chains in both directions
+    # (`(a ** b) ** c`, `a ** (b ** c)`, `(a % b) % c`, `a - (b - c)` …) are part of the space
+    def operand():
+        if depth < 2 and rng.random() < 0.45:
+            return gen_expr_wide(rng, depth + 1)
+        return gen_expr(rng, depth + 1)
+    lhs = operand()
+    rhs = operand() if rng.random() < 0.4 else rng.choice([1, 2, 3, 5])
+    k = rng.choice(['/', '%', '**', '**', '-', 'bitand', 'bitor', 'bitxor', 'lshift'])
     if k == '/':
-        return lhs / 2
+        return lhs / rhs
     if k == '%':
-        return lhs % 3
+        return lhs % rhs
     if k == '**':
-        return lhs ** 2
+        return lhs ** rhs
+    if k == '-':
+        return lhs - rhs
     if k == 'bitand':
-        return lhs.bitand(1)
+        return lhs.bitand(rhs)
     if k == 'bitor':
-        return lhs.bitor(4)
+        return lhs.bitor(rhs)
     if k == 'bitxor':
-        return lhs.bitxor(2)
-    return lhs.bitleftshift(1)
+        return lhs.bitxor(rhs)
+    return lhs.bitleftshift(rhs)
 
 
 def contains(absv, pred):
